@@ -122,19 +122,30 @@ func (s *Server) servePacket(pc net.PacketConn) error {
 	// closeCh is used to receive notifications of socket closures from
 	// packetConn, which allows us to remove stale connections (whose
 	// proxy handlers have completed) from the udpConns map.
-	closeCh := make(chan string, 10)
+	closeCh := make(chan *packetConn, 10)
 	for {
 		select {
-		case addr := <-closeCh:
+		case conn := <-closeCh:
 			// UDP connection is closed (either implicitly through timeout or by
-			// explicit call to Close()).
-			delete(udpConns, addr)
+			// explicit call to Close()). A connection may notify us more than
+			// once, so only forget it if it has not been replaced already by a
+			// newer connection for the same downstream.
+			addr := conn.addr.String()
+			if udpConns[addr] == conn {
+				delete(udpConns, addr)
+			}
 
 		case pkt := <-packets:
 			if pkt.err != nil {
 				return pkt.err
 			}
 			conn, ok := udpConns[pkt.addr.String()]
+			if ok && conn.isClosed() {
+				// The handler has completed, its notification is still on
+				// its way: start a new one, concurrent to the old one
+				// shutting down.
+				ok = false
+			}
 			if !ok {
 				// No existing proxy handler is running for this downstream.
 				// Create one now.
@@ -243,7 +254,7 @@ type packetConn struct {
 	net.PacketConn
 	addr    net.Addr
 	readCh  chan *packet
-	closeCh chan string
+	closeCh chan *packetConn
 	// closed is closed by Close(). readCh itself is never closed, because
 	// the server loop may be sending on it at any time.
 	closed    chan struct{}
@@ -335,7 +346,7 @@ func (pc *packetConn) Read(b []byte) (n int, err error) {
 	// Although Close() also does this, we inform the server loop early about
 	// the closure to ensure that if any new packets are received from this
 	// connection in the meantime, a new handler will be started.
-	pc.closeCh <- pc.addr.String()
+	pc.closeCh <- pc
 	// Returning EOF here ensures that io.Copy() waiting on the downstream for
 	// reads will terminate.
 	return 0, io.EOF
@@ -363,13 +374,23 @@ func (pc *packetConn) Close() error {
 	}
 	// We may have already done this earlier in Read(), but just in case
 	// Read() wasn't being called, (re-)notify server loop we're closed.
-	pc.closeCh <- pc.addr.String()
+	pc.closeCh <- pc
 	// We don't call net.PacketConn.Close() here as we would stop the UDP
 	// server.
 	return nil
 }
 
 func (pc *packetConn) RemoteAddr() net.Addr { return pc.addr }
+
+// isClosed reports whether Close() has been called.
+func (pc *packetConn) isClosed() bool {
+	select {
+	case <-pc.closed:
+		return true
+	default:
+		return false
+	}
+}
 
 var udpBufPool = sync.Pool{
 	New: func() interface{} {
